@@ -408,7 +408,9 @@ func (ex *Exec) defineRec(sf *SpecFunc, f string, ptypes []types.Type, rt types.
 	saveGuards, savePkg := ex.guards, ex.pkg
 	ex.guards = nil
 	ex.pkg = nil
+	ex.noBirth++
 	body := ex.evalCE(q, sf.Body)
+	ex.noBirth--
 	ex.guards, ex.pkg = saveGuards, savePkg
 	ex.quantFacts = outer
 	bs := "(" + strings.Join(binders, " ") + ")"
